@@ -22,7 +22,8 @@ from props.c14 import case_tune
 PROP = "C13"
 READY = True
 DRIVER = "dm_token"
-LEAN_MODULES = ["DaskModel.Props.C13"]
+LEAN_MODULES = ["DaskModel.Props.C13", "DaskModel.Props.C13Fuse"]
+TABLES = ["FusedKeyRenamer"]
 CASE_TIMEOUT_S = 180
 LEVEL_TEXT = ("Lean proof: (i) keys_restored — for every list of operands with arbitrary optimizers, the keys reported after "
               "_tune_down grouped the operands are the operands' keys in their original order; (ii) merge_sound / "
@@ -65,11 +66,102 @@ def _upper(s):
     return str(s).upper()
 
 
+LONG_MAPS, LONG_PREDS = U.LONG_MAPS, U.LONG_PREDS
+
+_TMP = []
+
+
+def _text_files(contents):
+    """one file per string, in a directory of this process; the path depends on position and content"""
+    import os
+    import tempfile
+    if not _TMP:
+        _TMP.append(tempfile.mkdtemp(prefix="c13_readtext_"))
+    paths = []
+    for i, c in enumerate(contents):
+        path = os.path.join(_TMP[0], f"part{i}-{hashlib.md5(c.encode()).hexdigest()[:10]}.txt")
+        if not os.path.exists(path):
+            with open(path, "w", newline="") as f:
+                f.write(c)
+        paths.append(path)
+    return paths
+
+
+def _chain_ref(x, ops, is_bag):
+    for op in ops:
+        if op[0] == "map":
+            x = [LONG_MAPS[op[1]](v) for v in x] if is_bag else LONG_MAPS[op[1]](x)
+        elif op[0] == "filter":
+            x = [v for v in x if LONG_PREDS[op[1]](v)]
+        elif op[0] == "rev":
+            x = x[::-1]
+        elif op[0] == "T":
+            x = x.T
+    return x
+
+
 def build_prog(spec):
     """spec -> (dask collection, reference value)."""
     import numpy as np
     import dask
     k = spec[0]
+    if k == "bagchain":
+        import dask.bag as db
+        _, seq, npart, ops = spec
+        b = db.from_sequence(list(seq), npartitions=npart)
+        for op in ops:
+            b = b.map(LONG_MAPS[op[1]]) if op[0] == "map" else b.filter(LONG_PREDS[op[1]])
+        return b, _chain_ref(list(seq), ops, True)
+    if k == "arrchain":
+        import dask.array as da
+        _, nd, chunks, ops = spec
+        x = U.build(nd)
+        d = da.from_array(x, chunks=chunks)
+        ref = np.array(x)
+        for op in ops:
+            ref = np.asarray(_chain_ref(ref, [op], False))
+            if op[0] == "map":
+                d = d.map_blocks(LONG_MAPS[op[1]], dtype=ref.dtype)   # NumPy arithmetic gives the native byte order
+            elif op[0] == "rev":
+                d = d[::-1]
+            else:
+                d = d.T
+        return d, ref
+    if k == "arrop":
+        import dask.array as da
+        _, nd, raw, chunks, op = spec
+        x, r = U.build(nd), U.build(raw)
+        d = da.from_array(x, chunks=chunks)
+        if op == "add":
+            return d + r, x + r
+        if op == "rsub":
+            return r - d, r - x
+        return da.maximum(d, r), np.maximum(x, r)
+    if k == "where":
+        import dask.array as da
+        _, nd, mask, outvals, chunks = spec
+        x = U.build(nd).ravel()
+        m = np.array(mask[:x.size] + [True] * max(0, x.size - len(mask)), dtype=bool)
+        o = np.array((outvals * (x.size + 1))[:x.size], dtype=x.dtype)
+        out = da.from_array(o.copy(), chunks=chunks)
+        da.add(da.from_array(x, chunks=chunks), da.from_array(x * 10, chunks=chunks), where=da.from_array(m, chunks=chunks), out=out)
+        return out, np.where(m, x + x * 10, o)
+    if k == "fromdelayed":
+        import dask.array as da
+        _, nd = spec
+        x = U.build(nd)
+        return da.from_delayed(dask.delayed(np.array, pure=True)(x), shape=x.shape, dtype=x.dtype), np.array(x)
+    if k == "bagdelayed":
+        import dask.bag as db
+        _, parts = spec
+        parts = [[U.build(s) for s in part] for part in parts]
+        return db.from_delayed([dask.delayed(list, pure=True)(part) for part in parts]), [v for part in parts for v in part]
+    if k == "readtext":
+        import dask.bag as db
+        _, contents, blocksize = spec
+        paths = _text_files(contents)
+        ref = [ln for c in contents for ln in c.splitlines(keepends=True)]
+        return db.read_text(paths, blocksize=blocksize), ref
     if k == "arr":
         import dask.array as da
         _, nd, chunks, op = spec
@@ -143,7 +235,9 @@ def canon_val(x):
 
 
 def _kind_family(spec):
-    return {"arr": "array", "del": "delayed", "delnp": "delayed", "bag": "bag", "ser": "frame"}[spec[0]]
+    return {"arr": "array", "del": "delayed", "delnp": "delayed", "bag": "bag", "ser": "frame", "bagchain": "bag",
+            "arrchain": "array", "arrop": "array", "where": "array", "fromdelayed": "array", "bagdelayed": "bag",
+            "readtext": "bag"}[spec[0]]
 
 
 def case_together(ctx, inp):
@@ -184,11 +278,30 @@ def case_together(ctx, inp):
     shared = any(names[i] and names[i] == names[j] for i in range(len(names)) for j in range(i))
     if shared:
         ctx.branch("same-name:" + label)
+    if label.startswith("long-names"):
+        # measure the generator: does the optimised graph really hold a fused task whose name was cut?
+        try:
+            from dask.base import collections_to_expr
+            g = collections_to_expr(colls).optimize().__dask_graph__()
+            cut = [k for k in g if len(k[0] if isinstance(k, tuple) else str(k)) >= _cut_length()]
+            if cut:
+                ctx.branch("fused-name-cut")
+                if len({(k[0] if isinstance(k, tuple) else k) for k in cut}) >= 2:
+                    ctx.branch("fused-name-cut:two-pipelines")
+        except Exception:
+            ctx.note("fused-name-measure-failed")
     ctx.branch("together:" + "+".join(sorted(set(fams))))
     if label:
         ctx.branch("label:" + label)
     if _interleaved(fams):
         ctx.branch("interleaved-optimizers")
+
+
+def _cut_length():
+    """length of a fused name that was cut: the kept characters, a dash, the digest"""
+    import inspect
+    from dask.optimization import default_fused_keys_renamer
+    return inspect.signature(default_fused_keys_renamer).parameters["max_fused_key_length"].default
 
 
 def _interleaved(s):
@@ -267,7 +380,92 @@ def case_merge(ctx, inp):
     ctx.branch("merge")
 
 
-CASES = {"together": case_together, "merge": case_merge, "tune": case_tune}
+# ----------------------------------------------------------------------------------------------
+# function level: the name of a fused chain
+# ----------------------------------------------------------------------------------------------
+
+def _mk_key(kspec):
+    """["s", name] -> str key, ["t", name, i, …] -> tuple key"""
+    return kspec[1] if kspec[0] == "s" else tuple(kspec[1:])
+
+
+def case_fusedkey(ctx, inp):
+    """default_fused_keys_renamer on several chains: model (kept characters + md5 of the FULL joined name) vs real;
+    property: chains with different top keys never get the same fused key; and the same through
+    fuse_linear_task_spec on a graph holding all the chains (each top key evaluates to its own value)."""
+    from dask.optimization import default_fused_keys_renamer
+    from dask.utils import key_split
+    from dask._task_spec import Task, TaskRef, fuse_linear_task_spec
+    maxlen = inp.get("maxlen")
+    if inp.get("search"):
+        # many chains with the same (long-named) steps over different data: the top keys differ in their token only.
+        # With a 16-bit suffix some two of a few thousand chains shared their fused key (birthday bound).
+        steps = inp["steps"]
+        seen, hit = {}, None
+        for i in range(inp["search"]):
+            keys = [(f"{st}-{hashlib.md5(f'{st}{i}'.encode()).hexdigest()}", 0) for st in steps]
+            fk = default_fused_keys_renamer(keys)
+            if fk in seen:
+                hit = (seen[fk], keys)
+                break
+            seen[fk] = keys
+        ctx.branch("fusedkey-search")
+        if hit is None:
+            return
+        inp = dict(inp, chains=[[["t", k[0], 0] for k in ch] for ch in hit])
+        ctx.cur_input = {"chains": inp["chains"]}
+    chains = [[_mk_key(k) for k in ch] for ch in inp["chains"]]
+    fused = []
+    for keys in chains:
+        real = default_fused_keys_renamer(keys) if maxlen is None else default_fused_keys_renamer(keys, maxlen)
+        first = keys[-1]
+        fname = first if isinstance(first, str) else first[0]
+        m_kept, m_full = ctx.lean(Sym("fusedparts"), 120 if maxlen is None else maxlen,
+                                  [key_split(k) for k in reversed(keys[:-1])], key_split(first), fname)
+        if m_full is None or str(m_full) == "none":
+            model = m_kept
+        else:
+            model = m_kept + "-" + hashlib.md5(m_full.encode(errors="surrogatepass")).hexdigest()
+            ctx.branch("fused-name-cut")
+        model = model if isinstance(first, str) else (model,) + tuple(first[1:])
+        ctx.eq("default_fused_keys_renamer", [repr(model)], [repr(real)])
+        fused.append(real)
+    for i in range(len(chains)):
+        for j in range(i):
+            if chains[i][-1] != chains[j][-1] and fused[i] == fused[j]:
+                ctx.fail("two chains with different top keys get the same fused key", sig=None,
+                         observed={"fused": repr(fused[i]), "top keys": [repr(chains[i][-1]), repr(chains[j][-1])]})
+    # the chains in one graph: value of a chain = code of (chain number, length)
+    dsk = {}
+    want = {}
+    for c, keys in enumerate(chains):
+        prev = None
+        for d, k in enumerate(keys):
+            if k in dsk:
+                break
+            dsk[k] = Task(k, _step, c * 100 + d, *([TaskRef(prev)] if prev is not None else []))
+            prev = k
+        else:
+            want[keys[-1]] = sum(c * 100 + d for d in range(len(keys)))
+    if want:
+        from dask._task_spec import execute_graph
+        out = fuse_linear_task_spec(dict(dsk), list(want))
+        res = execute_graph(out, keys=list(want))
+        got = {k: res[k] for k in want}
+        if got != want:
+            ctx.fail("after fuse_linear_task_spec the top key of a chain evaluates to another chain's value", sig=None,
+                     observed={repr(k): v for k, v in got.items()}, expected={repr(k): v for k, v in want.items()})
+        if len(want) >= 2:
+            ctx.branch("fusedkey-several-chains")
+    if any(isinstance(ch[-1], tuple) for ch in chains):
+        ctx.branch("fusedkey-tuple-keys")
+
+
+def _step(c, prev=0):
+    return c + prev
+
+
+CASES = {"together": case_together, "merge": case_merge, "tune": case_tune, "fusedkey": case_fusedkey}
 
 
 # ----------------------------------------------------------------------------------------------
@@ -338,6 +536,112 @@ def similar_pair(rng):
     return a, b, f"series-{c}"
 
 
+def chain_pair(rng):
+    """two pipelines with the SAME long-named steps over different (or equal) data, and further near-identical
+    constructions: raw NumPy operands, ufunc where=/out=, from_delayed, read_text"""
+    r = rng.random()
+    if r < 0.3:
+        n = rng.randint(1, 4)
+        seq = [rng.randint(0, 9) for _ in range(n)]
+        c = rng.random()
+        seq2 = list(seq) if c < 0.2 else ([v + 1 for v in seq] if c < 0.6 else seq[::-1] + [rng.randint(0, 9)])
+        ops = [[rng.choice(["map", "map", "filter"]), rng.randrange(len(LONG_MAPS))] for _ in range(rng.randint(2, 3))]
+        npart = rng.choice([1, 1, 2])
+        return ["bagchain", seq, npart, ops], ["bagchain", seq2, npart, ops], "long-names:bag"
+    if r < 0.55:
+        while True:
+            a = _nd_numeric(rng)
+            if U.build(a).ndim >= 1 and a[1] != "<f4":
+                break
+        b, lab = U.mutate_nd(rng, a)
+        if b[0] != "nd" or U.build(b).ndim < 1 or U.build(b).dtype.kind not in "iuf":
+            b = a
+        ops = [["map", rng.randrange(len(LONG_MAPS))], [rng.choice(["rev", "T", "rev"])], ["map", rng.randrange(len(LONG_MAPS))]]
+        if rng.random() < 0.4:
+            ops.append(["map", rng.randrange(len(LONG_MAPS))])
+        chunks = rng.choice([-1, -1, 2, 3])
+        return ["arrchain", a, chunks, ops], ["arrchain", b, chunks, ops], "long-names:array"
+    if r < 0.7:
+        a = _nd_numeric(rng)
+        raw, lab = U.mutate_nd(rng, a)
+        if raw[0] != "nd" or U.build(raw).shape != U.build(a).shape or U.build(raw).dtype.kind not in "iuf":
+            raw, lab = a, "same:identity"
+        op = rng.choice(["add", "rsub", "max"])
+        chunks = rng.choice([-1, 2])
+        return ["arrop", a, a, chunks, op], ["arrop", a, raw, chunks, op], "raw-operand:" + lab.split(":")[-1]
+    if r < 0.8:
+        a = ["nd", "<i8", [rng.randint(0, 5) for _ in range(rng.randint(2, 6))], [["reshape", [-1]]]]
+        n = len(a[2])
+        a[3] = [["reshape", [n]]]
+        mask = [rng.random() < 0.5 for _ in range(n)]
+        out = [rng.randint(0, 2) for _ in range(n)]
+        mask2, out2 = list(mask), list(out)
+        if rng.random() < 0.5:
+            i = rng.randrange(n)
+            mask2[i] = not mask2[i]
+        else:
+            i = rng.randrange(n)
+            out2[i] += 1
+        chunks = rng.choice([-1, 2])
+        return ["where", a, mask, out, chunks], ["where", a, mask2, out2, chunks], "ufunc-where-out"
+    if r < 0.9:
+        a = _nd_numeric(rng)
+        b, lab = U.mutate_nd(rng, a)
+        if b[0] != "nd":
+            b = a
+        return ["fromdelayed", a], ["fromdelayed", b], "from-delayed:" + lab.split(":")[-1]
+    if r < 0.95:
+        parts = [[["int", rng.randint(0, 3)] for _ in range(rng.randint(1, 3))] for _ in range(rng.randint(1, 2))]
+        flat = [v for p in parts for v in p]
+        alt = [flat] if rng.random() < 0.5 else [[["float", float(v[1])] for v in p] for p in parts]
+        return ["bagdelayed", parts], ["bagdelayed", alt], "bag-from-delayed"
+    lines = [rng.choice(["ab", "cd", "a", "", "abc"]) for _ in range(rng.randint(1, 4))]
+    text = "".join(ln + "\n" for ln in lines)
+    c = rng.random()
+    if c < 0.4 and len(text) > 2:
+        i = rng.randrange(len(text) - 1)
+        ch = "x" if text[i] != "\n" else "y"
+        other = [text[:i] + ch + text[i + 1:]]          # same size, another content
+    elif c < 0.7 and len(text) > 2:
+        cut = rng.randrange(1, len(text))
+        other = [text[:cut], text[cut:]]                 # same bytes in two files
+    else:
+        other = [text]
+    bs = rng.choice([None, None, 3])
+    return ["readtext", [text], bs], ["readtext", other, bs], "read-text"
+
+
+_WORDS = ["load", "clean", "score", "from_sequence", "array", "getitem", "x", "normalise_the_incoming_customer_record_fields_and_",
+          "compute_the_weighted_moving_average_of_the_sensor_", "convert_the_measured_temperature_from_fahrenheit_t",
+          "sum-aggregate", "é-läng", "a_b", "A", "lambda"]
+
+
+def gen_fusedkey(rng):
+    """several chains that share their step names and differ in the tokens of their keys (what different data gives);
+    str and tuple keys, names below / at / above the length limit"""
+    nsteps = rng.randint(2, 5)
+    steps = [rng.choice(_WORDS) for _ in range(nsteps)]
+    tuple_keys = rng.random() < 0.5
+    chains = []
+    for c in range(rng.randint(1, 4)):
+        keys = []
+        for st in steps:
+            tok = "%032x" % rng.getrandbits(128) if rng.random() < 0.9 else "%08x" % rng.getrandbits(32)
+            name = f"{st}-{tok}" if rng.random() < 0.95 else st
+            keys.append(["t", name, c % 2] + ([rng.randrange(3)] if rng.random() < 0.3 else []) if tuple_keys else ["s", name])
+        if rng.random() < 0.15 and chains:
+            keys[:-1] = chains[-1][:-1]      # same lower part: only the top keys differ
+        chains.append(keys)
+    inp = {"chains": chains}
+    r = rng.random()
+    if r < 0.25:
+        total = len("-".join(sorted(set(steps[:-1]))) + "-" + chains[0][-1][1])
+        inp["maxlen"] = max(34, total + 33 + rng.choice([-2, -1, 0, 1, 2]))      # boundary of the limit
+    elif r < 0.35:
+        inp["maxlen"] = rng.choice([34, 40, 64, 200, 0])
+    return inp
+
+
 def other_prog(rng):
     r = rng.random()
     if r < 0.35:
@@ -374,7 +678,16 @@ def generate(ctx):
         yield "merge", {"progs": e["progs"]}
     for _ in range(ctx.n(40, 400)):
         yield "tune", {"ids": [rng.randrange(12) for _ in range(rng.randint(1, 7))]}
-    for _ in range(ctx.n(150, 1500)):
+    for _ in range(ctx.n(120, 1500)):
+        yield "fusedkey", gen_fusedkey(rng)
+    for _ in range(ctx.n(70, 700)):
+        a, b, lab = chain_pair(rng)
+        progs = [a, b]
+        if rng.random() < 0.3:
+            progs.insert(rng.randint(0, 2), other_prog(rng))
+        yield "together", {"progs": progs, "label": lab.split(":same")[0], "scheduler": rng.choice(["sync", "sync", "threads"]),
+                           "optimize_graph": rng.random() < 0.85}
+    for _ in range(ctx.n(110, 1100)):
         a, b, lab = similar_pair(rng)
         progs = [a, b]
         for _ in range(rng.choice([0, 0, 1, 2])):
